@@ -951,3 +951,61 @@ def container_rules(facts, rep, R3):
         rep.inconc(R3, "from_archive: how the result of from_stream is consumed was not recognised")
     else:
         rep.violation(R3, par.name, "container-loop", "reader loop does not (push on Ok, stop on Err)", "%s:%s" % (par.file, par.line))
+    # the spec loop must not stop while a minimal record (flags word + name cell = 8 bytes) and the 4-byte trailer
+    # are still ahead of the cursor: evaluate every position-dependent condition inside the loop at such positions
+    def pos_val(t, env):
+        t = strip_refs(t)
+        while t[0] in ("cast", "deref"):
+            t = strip_refs(t[1])
+        if t[0] == "const" and isinstance(t[1], int) and not isinstance(t[1], bool):
+            return t[1]
+        if t[0] == "call" and t[1].rsplit("::", 1)[-1] in ("tell", "position"):
+            return env["tell"]
+        if t[0] == "call" and t[1].rsplit("::", 1)[-1] in ("size", "len", "length"):
+            return env["size"]
+        if t[0] == "field" and t[3] == 0 and t[1][0] == "bin" and t[1][1].endswith("WithOverflow"):
+            t = ("bin", t[1][1].replace("WithOverflow", ""), t[1][2], t[1][3])
+        if t[0] == "bin":
+            a_, b_ = pos_val(t[2], env), pos_val(t[3], env)
+            if a_ is None or b_ is None:
+                return None
+            op_ = t[1].replace("WithOverflow", "").replace("Unchecked", "")
+            if op_ == "Sub" and a_ < b_:
+                return None
+            return {"Add": a_ + b_, "Sub": a_ - b_, "Mul": a_ * b_, "Eq": a_ == b_, "Ne": a_ != b_, "Lt": a_ < b_, "Le": a_ <= b_, "Gt": a_ > b_, "Ge": a_ >= b_}.get(op_)
+        if t[0] == "call" and t[1].rsplit("::", 1)[-1] in ("saturating_sub",) and len(t[2]) == 2:
+            a_, b_ = pos_val(t[2][0], env), pos_val(t[2][1], env)
+            return None if a_ is None or b_ is None else max(a_ - b_, 0)
+        return None
+    lblocks = set()
+    for h_, bl_ in par.loops().items():
+        lblocks |= set(bl_)
+    stops = None
+    undecided = None
+    n_pos = 0
+    for bi_ in sorted(lblocks):
+        tt_ = par.blocks[bi_]["term"]
+        if tt_["k"] != "switch":
+            continue
+        d_ = par.term_of_operand(tt_["d"])
+        if not any(x[0] == "call" and x[1].rsplit("::", 1)[-1] in ("tell", "position") for x in walk(d_)):
+            continue
+        n_pos += 1
+        for t0 in (4, 12, 40):
+            v_ = pos_val(d_, {"tell": t0, "size": t0 + 12})
+            if v_ is None:
+                undecided = fmt(d_)[:60]
+                continue
+            tk_ = tt_["otherwise"]
+            for val_, b_ in tt_["targets"]:
+                if val_ == int(bool(v_)):
+                    tk_ = b_
+            if tk_ not in lblocks:
+                stops = (fmt(d_)[:70], t0)
+    if stops:
+        rep.violation(R3, par.name, "stops-early", "the spec loop leaves on `%s` with the cursor at %d of %d bytes: a minimal 8-byte record followed by the 4-byte trailer is still there and is never read" % (stops[0], stops[1], stops[1] + 12), "%s:%s" % (par.file, par.line))
+    elif undecided:
+        rep.inconc(R3, "from_archive: a loop condition on the cursor position was not evaluated (%s)" % undecided)
+    else:
+        rep.ok(R3, {"reader_loop": "no position-dependent exit before the last record", "position_conditions": n_pos})
+
